@@ -154,6 +154,8 @@ def gen_lifetime(rng, method, tier, guard=False):
             d['size'] = rng.choice([70000, 200000])
         elif kind == 'exc':
             d['exc'] = rng.choice(['KeyError', 'ValueError', 'TaskError', 'ZeroDivisionError'])
+            if rng.random() < 0.3:
+                d['depth'] = rng.choice([150, 600, 800])    # very deep traceback
         elif kind == 'base':
             d['exc'] = rng.choice(['KeyboardInterrupt', 'GeneratorExit', 'SystemExit', 'OddBase'])
         elif kind == 'sysexit':
